@@ -629,6 +629,8 @@ class Tr(object):
             return '(SReturn %s)' % (self.expr(s.value) if s.value is not None else '(EConst PNone)')
         if isinstance(s, ast.Continue):
             return 'SContinue'
+        if isinstance(s, ast.Break):
+            return 'SBreak'
         if isinstance(s, ast.Pass):
             return None
         if isinstance(s, ast.Assert):
